@@ -79,6 +79,10 @@ var progSpecs = []progSpec{
 	{"container", "", "InterfaceType", "opt_InterfaceType"},
 	{"container", "", "FuncName", "opt_FuncName"},
 	{"container", "", "FuncNameAndResult", "opt_FuncNameAndResult"},
+	{"container/support", "defaultDefinitionRegistry", "RegisterMeta", "dreg_RegisterMeta"},
+	{"container/support", "defaultDefinitionRegistry", "GetMetas", "dreg_GetMetas"},
+	{"container/support", "defaultDefinitionRegistry", "GetMetaByName", "dreg_GetMetaByName"},
+	{"container/support", "defaultDefinitionRegistry", "GetMetaOrRegister", "dreg_GetMetaOrRegister"},
 }
 
 // conversions whose single argument is passed through unchanged
@@ -343,6 +347,18 @@ func (t *tr) call(c *ast.CallExpr) string {
 		}
 	}
 	if name == "" {
+		if inner, isCall := c.Fun.(*ast.CallExpr); isCall && lit == nil {
+			// F(a…)(b…): applying the function value a constructor returns — the primitive "F()" (or "F...()" when the
+			// constructor is called with a spread slice) on a… followed by b…
+			if p, root, ok := dotted(inner.Fun); ok && (t.pkgs[root] || !strings.Contains(p, ".")) {
+				n := p
+				if inner.Ellipsis != token.NoPos {
+					n += "..."
+				}
+				all := append(append([]ast.Expr{}, inner.Args...), args...)
+				return fmt.Sprintf("(.call %s %s)", lq(n+"()"), t.list(all))
+			}
+		}
 		sel, ok := c.Fun.(*ast.SelectorExpr)
 		if !ok {
 			return t.unsupported("call of "+fmt.Sprintf("%T", c.Fun), c)
@@ -368,6 +384,36 @@ func (t *tr) call(c *ast.CallExpr) string {
 		return fmt.Sprintf("(.mcall (.var %s) \"call\" %s)", lq(name[5:]), t.list(args))
 	}
 	return fmt.Sprintf("(.call %s %s)", lq(name), t.list(args))
+}
+
+// trailingLit: the function literal in last argument position, if any
+func trailingLit(c *ast.CallExpr) *ast.FuncLit {
+	if n := len(c.Args); n > 0 {
+		if fl, ok := c.Args[n-1].(*ast.FuncLit); ok {
+			return fl
+		}
+	}
+	return nil
+}
+
+// assignsCaptured: does the literal assign (`=`, not `:=`) to an identifier declared outside of it?
+func assignsCaptured(lit *ast.FuncLit) bool {
+	found := false
+	ast.Inspect(lit.Body, func(n ast.Node) bool {
+		as, ok := n.(*ast.AssignStmt)
+		if !ok || as.Tok != token.ASSIGN {
+			return true
+		}
+		for _, l := range as.Lhs {
+			if id, ok := l.(*ast.Ident); ok && id.Obj != nil && id.Name != "_" {
+				if pos := id.Obj.Pos(); pos < lit.Pos() || pos > lit.End() {
+					found = true
+				}
+			}
+		}
+		return true
+	})
+	return found
 }
 
 func identNames(es []ast.Expr) ([]string, bool) {
@@ -424,6 +470,22 @@ func (t *tr) stmt(s ast.Stmt) []string {
 					return []string{fmt.Sprintf(".assign [%s] %s", lq(id.Name), t.expr(x.X))}
 				}
 				return []string{t.unsupported("in-place sort of a non-variable", x)}
+			}
+		}
+		if c, ok := x.X.(*ast.CallExpr); ok {
+			if lit := trailingLit(c); lit != nil && assignsCaptured(lit) {
+				// the literal assigns to a variable of the enclosing function: statement form, capture by reference
+				if recv, isSel := c.Fun.(*ast.SelectorExpr); isSel {
+					if p, root, ok := dotted(recv); ok && (root == t.recv && t.recv != "" || t.pkgs[root]) {
+						name := p
+						if root == t.recv {
+							name = "self" + p[len(root):]
+						}
+						return []string{fmt.Sprintf(".hcallS [] %s %s %s %s", lq(name), t.list(c.Args[:len(c.Args)-1]),
+							qlist(t.names(lit.Type.Params)), t.block(lit.Body.List))}
+					}
+				}
+				return []string{t.unsupported("capturing literal in a call that is not through the receiver or a package", x)}
 			}
 		}
 		return []string{fmt.Sprintf(".expr %s", t.expr(x.X))}
